@@ -1,2 +1,422 @@
-// Package c17: correspondence harness for property C17 (stub — registers nothing yet).
+// Package c17: "every launched task ends with exactly one terminal status and no survivors".
+//
+// Input  : (kind behaviour (op …))
+//
+//	kind      := basic | hook | ctl | nodata
+//	behaviour := ok | fail | sig | fork | nobin            (basic, hook: /bin/sh child scripts)
+//	           | noport | nobin | occ | occstay | occign | occfork | occfail   (ctl; occ* = fake OCC device)
+//	op        := launch | tick | start | stop | conf | trigger | kill | await
+//
+// Every op is one event delivered to the REAL executor event loop (LAUNCH, MESSAGE
+// transition/trigger, KILL) or one asynchronous happening made deterministic:
+// `tick` = the 200 ms TASK_RUNNING timer of a basic/hook task fires (ctl: the device
+// became ready), `await` = the latest child ends on its own and is reaped.
+//
+// Obs    : ((res r…) (emits e…) (alive 0|1|-))
+//
+//	r := ok | none | dead | loopexit | notask | norpc | nonhook | (r STATE err) | (h err) | (crash where) | hang
+//	e := (S RUNNING|FINISHED|FAILED|KILLED) | (E final voluntary exitcode)
+//
+// Each case runs in its own re-executed vh process (runner.go), so a panic or a
+// hang of the code under test ends only that case.
 package c17
+
+import (
+	"bufio"
+	"bytes"
+	"fmt"
+	"os"
+	"os/exec"
+	"path/filepath"
+	"regexp"
+	"strconv"
+	"strings"
+	"syscall"
+	"time"
+
+	"verifharness/fw"
+	"verifharness/rng"
+	"verifharness/sx"
+)
+
+var workDir = "/verif/.work/C17"
+
+const caseCeiling = 150 * time.Second
+
+var frameRe = regexp.MustCompile(`github\.com/AliceO2Group/Control/executor(?:/executable)?\.((?:\(\*?[A-Za-z0-9_]+\)\.)?[A-Za-z0-9_]+)`)
+
+// crashSite names the first frame of the code under test in a Go panic trace.
+func crashSite(stderr string) string {
+	i := strings.Index(stderr, "panic:")
+	if j := strings.Index(stderr, "fatal error:"); i < 0 || (j >= 0 && j < i) {
+		i = j
+	}
+	if i < 0 {
+		return ""
+	}
+	for _, l := range strings.Split(stderr[i:], "\n") {
+		if m := frameRe.FindStringSubmatch(l); m != nil {
+			name := m[1]
+			name = strings.NewReplacer("(*", "", ")", "", "(", "", "*", "").Replace(name)
+			if k := strings.Index(name, ".func"); k >= 0 {
+				name = name[:k]
+			}
+			return name
+		}
+	}
+	return "unknown"
+}
+
+type caseOut struct {
+	obs          string
+	hang         bool
+	inconclusive string
+}
+
+func runOnce(input string) (caseOut, error) {
+	self, err := os.Executable()
+	if err != nil {
+		return caseOut{}, err
+	}
+	os.MkdirAll(workDir, 0o755)
+	dir, err := os.MkdirTemp(workDir, "case-")
+	if err != nil {
+		return caseOut{}, err
+	}
+	defer os.RemoveAll(dir)
+	cmd := exec.Command(self)
+	cmd.Env = append(os.Environ(), envCase+"="+input, envDir+"="+dir)
+	cmd.SysProcAttr = &syscall.SysProcAttr{Setpgid: true}
+	var stderr bytes.Buffer
+	cmd.Stderr = &stderr
+	stdout, err := cmd.StdoutPipe()
+	if err != nil {
+		return caseOut{}, err
+	}
+	if err := cmd.Start(); err != nil {
+		return caseOut{}, err
+	}
+	cleanup := func() {
+		_ = syscall.Kill(-cmd.Process.Pid, syscall.SIGKILL)
+		b, _ := os.ReadFile(filepath.Join(dir, "pids"))
+		for _, l := range strings.Fields(string(b)) {
+			if p, err := strconv.Atoi(l); err == nil && p > 1 {
+				_ = syscall.Kill(-p, syscall.SIGKILL)
+			}
+		}
+	}
+	defer cleanup()
+	lines := make(chan string, 256)
+	go func() {
+		sc := bufio.NewScanner(stdout)
+		sc.Buffer(make([]byte, 1<<16), 1<<20)
+		for sc.Scan() {
+			lines <- sc.Text()
+		}
+		close(lines)
+	}()
+	var all []string
+	timeout := time.After(caseCeiling)
+loop:
+	for {
+		select {
+		case l, ok := <-lines:
+			if !ok {
+				break loop
+			}
+			all = append(all, l)
+		case <-timeout:
+			cleanup()
+			cmd.Wait()
+			return caseOut{}, fmt.Errorf("case exceeded the harness ceiling (%s): %s", caseCeiling, input)
+		}
+	}
+	werr := cmd.Wait()
+
+	// assemble
+	res := sx.L(sx.A("res"))
+	emits := sx.L(sx.A("emits"))
+	alive := "-"
+	sigs := sx.L(sx.A("sigs"))
+	done, hang := false, -1
+	var emitAt []int // number of emits when op i began
+	for _, l := range all {
+		f := strings.SplitN(l, " ", 3)
+		switch f[0] {
+		case "OP":
+			emitAt = append(emitAt, emits.Len()-1)
+		case "EMIT":
+			n, err := sx.Parse(strings.TrimPrefix(l, "EMIT "))
+			if err != nil {
+				return caseOut{}, fmt.Errorf("bad EMIT line %q", l)
+			}
+			emits.Add(n)
+		case "RES":
+			n, err := sx.Parse(f[2])
+			if err != nil {
+				return caseOut{}, fmt.Errorf("bad RES line %q", l)
+			}
+			res.Add(n)
+		case "HANG":
+			hang, _ = strconv.Atoi(f[1])
+			res.Add(sx.A("hang"))
+		case "INCONCLUSIVE":
+			return caseOut{inconclusive: l}, nil
+		case "ALIVE":
+			alive = f[1]
+		case "SIGS":
+			for _, x := range strings.Fields(strings.TrimPrefix(l, "SIGS")) {
+				sigs.Add(sx.A(x))
+			}
+		case "DONE":
+			done = true
+		}
+	}
+	if !done && hang < 0 {
+		site := crashSite(stderr.String())
+		if site == "" {
+			return caseOut{}, fmt.Errorf("runner died without a Go panic (%v): %s | %s", werr, input, lastLines(stderr.String(), 3))
+		}
+		// the op in progress crashed; its own emissions are not compared (they race with the crash)
+		nres := res.Len() - 1
+		if nres < len(emitAt) {
+			emits.List = emits.List[:emitAt[nres]+1]
+		}
+		res.Add(sx.L(sx.A("crash"), sx.A(site)))
+		alive = "-"
+	}
+	if alive == "-" {
+		sigs = sx.L(sx.A("sigs"))
+	}
+	obs := sx.L(res, emits, sx.L(sx.A("alive"), sx.A(alive)), sigs).String()
+	return caseOut{obs: obs, hang: hang >= 0}, nil
+}
+
+func lastLines(s string, n int) string {
+	ls := strings.Split(strings.TrimSpace(s), "\n")
+	if len(ls) > n {
+		ls = ls[len(ls)-n:]
+	}
+	return strings.Join(ls, " / ")
+}
+
+func runImpl(input string) (string, error) {
+	o, err := runOnce(input)
+	if err != nil {
+		return "", err
+	}
+	if o.inconclusive != "" {
+		// one retry: timing inversions under load are transient
+		o, err = runOnce(input)
+		if err != nil {
+			return "", err
+		}
+		if o.inconclusive != "" {
+			return "", fmt.Errorf("%s: %s", o.inconclusive, input)
+		}
+	}
+	if o.hang {
+		// a hang is an observation only when it reproduces
+		o2, err := runOnce(input)
+		if err != nil {
+			return "", err
+		}
+		if o2.obs != o.obs {
+			return "", fmt.Errorf("hang did not reproduce: %s", input)
+		}
+	}
+	return o.obs, nil
+}
+
+var basicBehs = []string{"ok", "fail", "sig", "fork", "nobin"}
+var ctlBehs = []string{"noport", "nobin", "occ", "occstay", "occign", "occfork", "occfail"}
+var allOps = []string{"tick", "start", "stop", "conf", "trigger", "kill", "await"}
+
+func mkCase(kind, beh string, ops []string) fw.Case {
+	l := sx.L()
+	for _, o := range ops {
+		l.Add(sx.A(o))
+	}
+	n := len(ops)
+	lt := "len>=5"
+	if n < 5 {
+		lt = "len=" + strconv.Itoa(n)
+	}
+	return fw.Case{Input: sx.L(sx.A(kind), sx.A(beh), l).String(), Tags: []string{"kind=" + kind, "beh=" + beh, lt}}
+}
+
+// expensive reports schedules that are slow by construction (escalation timers, a reproduced hang).
+func expensive(kind, beh string, ops []string) bool {
+	if kind == "ctl" && (beh == "occign" || beh == "occstay") {
+		for _, o := range ops {
+			if o == "kill" {
+				return true
+			}
+		}
+	}
+	if beh == "sig" {
+		stops := 0
+		for _, o := range ops {
+			if o == "stop" {
+				stops++
+			}
+		}
+		return stops >= 2
+	}
+	return false
+}
+
+func allSchedules(n int) [][]string {
+	out := [][]string{{}}
+	last := [][]string{{}}
+	for l := 1; l <= n; l++ {
+		var next [][]string
+		for _, p := range last {
+			for _, o := range allOps {
+				q := append(append([]string{}, p...), o)
+				next = append(next, q)
+			}
+		}
+		out = append(out, next...)
+		last = next
+	}
+	return out
+}
+
+func randomOps(r *rng.R, kind string, n int) []string {
+	// weights: requests that matter for the kind are more likely; `tick` is usually first for basic/hook
+	var pool []string
+	switch kind {
+	case "basic":
+		pool = []string{"start", "start", "stop", "stop", "kill", "await", "await", "conf", "tick", "trigger"}
+	case "hook":
+		pool = []string{"trigger", "trigger", "stop", "start", "kill", "await", "await", "conf", "tick"}
+	default:
+		pool = []string{"conf", "start", "stop", "kill", "kill", "await", "tick", "trigger"}
+	}
+	var ops []string
+	if kind != "ctl" && r.P(6, 10) {
+		ops = append(ops, "tick")
+	}
+	for len(ops) < n {
+		ops = append(ops, rng.Pick(r, pool))
+	}
+	return ops
+}
+
+func generate(tier string, r *rng.R) []fw.Case {
+	var cs []fw.Case
+	exLen, nRandom, nCtl, maxLen, slowBudget := 2, 150, 50, 7, 10
+	if tier == "thorough" {
+		exLen, nRandom, nCtl, maxLen, slowBudget = 3, 3000, 600, 9, 80
+	}
+	slow := 0
+	add := func(kind, beh string, ops []string) {
+		if expensive(kind, beh, ops) {
+			if slow >= slowBudget {
+				return
+			}
+			slow++
+		}
+		cs = append(cs, mkCase(kind, beh, ops))
+	}
+	cs = append(cs, mkCase("nodata", "ok", nil))
+	// every schedule up to exLen steps for basic and hook tasks, up to exLen-1 for controllable ones
+	for _, kind := range []string{"basic", "hook"} {
+		for _, beh := range basicBehs {
+			for _, ops := range allSchedules(exLen) {
+				add(kind, beh, ops)
+			}
+		}
+	}
+	for _, beh := range ctlBehs {
+		for _, ops := range allSchedules(exLen - 1) {
+			add("ctl", beh, ops)
+		}
+	}
+	// longer random schedules
+	for i := 0; i < nRandom; i++ {
+		q := r.Fork()
+		kind := rng.Pick(q, []string{"basic", "basic", "hook"})
+		add(kind, rng.Pick(q, basicBehs), randomOps(q, kind, q.Range(3, maxLen)))
+	}
+	for i := 0; i < nCtl; i++ {
+		q := r.Fork()
+		add("ctl", rng.Pick(q, ctlBehs), randomOps(q, "ctl", q.Range(2, maxLen-2)))
+	}
+	return cs
+}
+
+func nontrivial(input, obs string) bool {
+	in, err := sx.Parse(input)
+	if err != nil || in.Len() != 3 {
+		return false
+	}
+	ops := in.At(2)
+	spawn, end := in.At(0).Str() == "ctl", false
+	for i := 0; i < ops.Len(); i++ {
+		switch ops.At(i).Str() {
+		case "start", "trigger":
+			spawn = true
+		case "kill", "stop", "await":
+			end = true
+		}
+	}
+	return ops.Len() >= 2 && spawn && end
+}
+
+func shrinkCands(input string) []string {
+	in, err := sx.Parse(input)
+	if err != nil || in.Len() != 3 {
+		return nil
+	}
+	var out []string
+	ops := in.At(2)
+	for i := range ops.List {
+		n := sx.L()
+		n.List = append(append([]*sx.Node{}, ops.List[:i]...), ops.List[i+1:]...)
+		out = append(out, sx.L(in.At(0), in.At(1), n).String())
+	}
+	return out
+}
+
+func init() {
+	if v := os.Getenv("VH_C17_PROBE"); v != "" && os.Getenv(envCase) == "" && os.Getenv(envOCC) == "" {
+		obs, err := runImpl(v)
+		fmt.Println(obs, err)
+		os.Exit(0)
+	}
+	if os.Getenv(envCase) != "" || os.Getenv(envOCC) != "" {
+		return // child modes are dispatched by runner.go's init
+	}
+	fw.Register(&fw.Property{
+		ID:         "C17",
+		Generate:   generate,
+		RunImpl:    runImpl,
+		Nontrivial: nontrivial,
+		Rule: "one task per case in its own re-executed process: the real executor eventLoop + handlers + executable.NewTask with a fake Mesos " +
+			"agent and REAL children (sh scripts that exit 0 / 3, die of a signal, fork a helper, cannot be started; for controllable tasks a " +
+			"child that never opens its port and fake OCC devices that exit at DONE / need SIGTERM / ignore TERM+INT / fork). Schedules: every " +
+			"sequence of up to 2 (thorough 3) steps from {tick,start,stop,conf,trigger,kill,await} per kind x behaviour, plus random ones up to 7 " +
+			"(thorough 9) steps; observed: results of every step, UPDATE/MESSAGE calls in order, panic site, reproduced hang, survivors in the " +
+			"process groups, signals received by the device. non-trivial = >=2 steps, a child was spawned and a stop/kill/await follows; distinct by input text",
+		Shrink:  shrinkCands,
+		Workers: 8,
+		Setup: func(work string) error {
+			workDir = work
+			return os.MkdirAll(work, 0o755)
+		},
+		TrustedBase: []string{
+			"harness/props/c17 (fake Mesos agent = decoder+sender, child scripts, fake OCC device, /proc scan for survivors, panic-trace parsing)",
+			"/repo/executor/verif_hook_c17.go (builds internalState as Run does and calls the real eventLoop)",
+			"Linux process/signal semantics, /bin/sh (dash)",
+		},
+		Assumptions: []string{
+			"asynchronous happenings are given a definite place in the schedule by the harness (tick = the 200 ms TASK_RUNNING timer, await = the child ends and is reaped); runs in which the timer fired out of place are discarded as inconclusive",
+			"emissions of the very step that crashes the executor are not compared (they race with the crash)",
+			"the fake OCC device obeys every transition of the teardown walk; a device that refuses (final TASK_KILLED path) is not exercised",
+			"log lines are used only as completion signals for handler paths that send nothing (no task, RPC down, non-hook trigger)",
+		},
+	})
+	fw.RegisterGen(fw.GenFile{Name: "ExecTask.lean", Make: genExecTask})
+}
